@@ -31,6 +31,7 @@ type Cell struct {
 	Consumers int    `json:"consumers"`
 	Engine    bool   `json:"engine_level,omitempty"`
 	SlowLoad  bool   `json:"cancel_while_reading_input,omitempty"`
+	PreCancel bool   `json:"cancelled_before_run,omitempty"`
 }
 
 func httpFile(kind string, e int) (string, []byte) {
@@ -269,9 +270,60 @@ func cancelWhileLoading(res *vkit.Result, c Cell) {
 }
 
 // runCell returns "hang" when the watchdog fired.
+// cancelledBeforeRun: the run is cancelled before the provider's Run begins (a pool stopped while it
+// is starting), with consumers already waiting. Run must return and every consumer must be told
+// that there is no more ammo — "once it is cancelled a provider never keeps consumers blocked".
+func cancelledBeforeRun(res *vkit.Result, c Cell) {
+	p, path, err := buildProvider(c)
+	defer vkit.RemoveMem(path)
+	if err != nil {
+		res.Violate(key(c, "rejected"), fmt.Sprintf("valid provider config rejected: %v", err), c)
+		return
+	}
+	ctx, cancel := context.WithCancel(context.Background())
+	cancel()
+	released := make(chan int, c.Consumers)
+	for i := 0; i < c.Consumers; i++ {
+		go func() {
+			n := 0
+			for {
+				a, ok := p.Acquire()
+				if !ok {
+					released <- n
+					return
+				}
+				n++
+				p.Release(a)
+			}
+		}()
+	}
+	time.Sleep(2 * time.Millisecond) // let the consumers block in Acquire first
+	done := make(chan error, 1)
+	go func() { done <- p.Run(ctx, core.ProviderDeps{Log: vkit.NopLog(), PoolID: "verif"}) }()
+	select {
+	case <-done:
+	case <-time.After(10 * time.Second):
+		res.Violate(key(c, "pre-cancel/run-hang"), "Run with an already cancelled context did not return within 10 s", c)
+		return
+	}
+	for i := 0; i < c.Consumers; i++ {
+		select {
+		case <-released:
+		case <-time.After(5 * time.Second):
+			res.Violate(key(c, "pre-cancel/consumer-blocked"), fmt.Sprintf("Run has returned (context cancelled before it began) but %d of %d consumers are still blocked in Acquire 5 s later", c.Consumers-i, c.Consumers), c)
+			return
+		}
+	}
+	res.Count("cells_cancelled_before_run", 1)
+}
+
 func runCell(res *vkit.Result, c Cell, watchdog time.Duration, final bool) string {
 	if c.SlowLoad {
 		cancelWhileLoading(res, c)
+		return ""
+	}
+	if c.PreCancel {
+		cancelledBeforeRun(res, c)
 		return ""
 	}
 	p, path, err := buildProvider(c)
@@ -373,6 +425,11 @@ func cells(kind string) []Cell {
 	if kind == "uri" || kind == "uripost" || kind == "raw" || kind == "jsonline-lines" || kind == "grpc/json" {
 		for _, pre := range preloads {
 			out = append(out, Cell{Kind: kind, Preload: pre, SlowLoad: true, Consumers: 1})
+		}
+	}
+	for _, pre := range preloads {
+		for _, cn := range consumers {
+			out = append(out, Cell{Kind: kind, Preload: pre, Entries: 3, Limit: 0, Passes: 2, Consumers: cn, PreCancel: true})
 		}
 	}
 	for _, pre := range preloads {
